@@ -200,6 +200,7 @@ def applyOff (d : Defects) (name : String) : Defects :=
   | "emptyDayRow" => { d with emptyDayRow := false }
   | "oldDayUnmarked" => { d with oldDayUnmarked := false }
   | "refDeletionUnmarked" => { d with refDeletionUnmarked := false }
+  | "refDeletionTouchesRowWithoutRef" => { d with refDeletionTouchesRowWithoutRef := false }
   | "syncDeletionLocalDayUnmarked" => { d with syncDeletionLocalDayUnmarked := false }
   | "ingestIgnoresTombstones" => { d with ingestIgnoresTombstones := false }
   | "rightDependsOnLocalAuthor" => { d with rightDependsOnLocalAuthor := false }
@@ -211,8 +212,20 @@ def applyOff (d : Defects) (name : String) : Defects :=
   | "summaryFirstEntityOnly" => { d with summaryFirstEntityOnly := false }
   | _ => d
 
+/-- experiments only: `DMODEL_ON=switch,..` turns repaired switches on again (to check that the model with the
+    switch on still is the code with the fix reverse-applied in a private copy of /repo) -/
+def applyOn (d : Defects) (name : String) : Defects :=
+  match name with
+  | "oldDayUnmarked" => { d with oldDayUnmarked := true }
+  | "syncDeletionLocalDayUnmarked" => { d with syncDeletionLocalDayUnmarked := true }
+  | "lazyScan" => { d with lazyScan := true }
+  | "refDeletionUnmarked" => { d with refDeletionUnmarked := true }
+  | "refDeletionTouchesRowWithoutRef" => { d with refDeletionTouchesRowWithoutRef := true }
+  | _ => d
+
 def main : IO Unit := do
   let off := (← IO.getEnv "DMODEL_OFF").getD ""
-  let d := (off.splitOn ",").foldl applyOff Defects.asImplemented
+  let on := (← IO.getEnv "DMODEL_ON").getD ""
+  let d := (on.splitOn ",").foldl applyOn ((off.splitOn ",").foldl applyOff Defects.asImplemented)
   loop (← IO.getStdin) (← IO.getStdout) stepLine
     { w := World.init [], inCase := false, hashes := [], d := d }
